@@ -196,7 +196,7 @@ fn reloc_bound(act: &Act, len: usize, contiguous_before: bool) -> Option<usize> 
         | Get(_) | NthFront(_) | NthBack(_) | Front | Back | Index(_) | AsSlices | AsMutSlices => Some(2),
         WriteVia(acc, _) if acc != Acc::MakeContig => Some(2),
         Remove(i) => Some(if i < len { len - i } else { 0 }),
-        Drain(rs, _, Fin::Drop) => rs.resolve(len).ok().map(|(_, b)| len - b),
+        Drain(rs, _, Fin::Drop) | DrainDebug(rs, _) => rs.resolve(len).ok().map(|(_, b)| len - b),
         MakeContiguous if contiguous_before => Some(0),
         _ => None,
     }
@@ -420,10 +420,28 @@ pub fn bfs_check<const N: usize>(prop: &str, o: &Opts, rep: &mut Report) {
             "C11" => {
                 probes.extend(observers(N, st.len, true));
                 probes.push(Act::IntoIter(Script::all_front(st.len + 1)));
+                for k in 0..3 {
+                    probes.push(Act::IterDebug(k, Script::all_front(st.len.min(1))));
+                    probes.push(Act::IterDebug(k, Script::all_back(st.len + 1)));
+                }
+                for rs in all_ranges(N) {
+                    probes.push(Act::DrainDebug(rs, Script::all_back(1)));
+                }
+                probes.push(Act::DropBuf);
             }
             "C17" | "C20" => {
                 probes.extend(observers(N, st.len, false));
                 probes.push(Act::IntoIter(Script::all_front(st.len + 1)));
+                // every consumption script: what Drain::drop moves must not depend on how it was consumed
+                for a in 0..=st.len {
+                    for b in a..=st.len {
+                        for s in scripts_for(b - a) {
+                            if s.len > 0 {
+                                probes.push(Act::Drain(Rs::half_open(a, b), s, Fin::Drop));
+                            }
+                        }
+                    }
+                }
             }
             _ => {}
         }
@@ -436,6 +454,9 @@ pub fn bfs_check<const N: usize>(prop: &str, o: &Opts, rep: &mut Report) {
     // constructors with every source length (C03 / C11 / C17: they are operations too)
     if matches!(prop, "C03" | "C11" | "C17" | "C01") {
         ctor_checks::<N>(prop, rep);
+    }
+    if prop == "C01" && o.shard.0 == 0 {
+        crate::io::c01_extend_ref::<N>(rep);
     }
 }
 
